@@ -8,7 +8,7 @@ LEVEL = 'exploration'
 B = [0, 1, 2, 0x7F, 0x80, 0xFF, 0x100, 0xFFFF, 0x10000, 2**31 - 1, 2**31, 2**32 - 2, 2**32 - 1]
 RULE = ('list: every sequence of 0..3 entries from a pool of boundary entries (names a, 255 x b, \\xff\\x00/, UTF-8; mode/size/mtime in {0,1,2^31,2^32-1}) x ALL sets '
         'of <=k cut positions of the DENT/DONE reply stream (short-name listings) or <=1 (all listings) + all-1-byte + 300-entry listings x WRTE sizes; stat: all '
-        '13^3 boundary triples x every cut position of the 16-byte reply, <=2 cuts on a subset; both twins; the same with the reply WRTEs overtaking the OKAY of the request (legal per protocol.txt); the same requests after a reply that was cut off in mid-record, after an abandoned OPEN that is answered late, under global bulk_read fragmentation policies, and beside a second live stream of the same connection (all wire orders); oracle: return value == model filesystem, '
+        '13^3 boundary triples x every cut position of the 16-byte reply, <=2 cuts on a subset; both twins; the same with the reply WRTEs overtaking the OKAY of the request (legal per protocol.txt); the same requests after a reply that was cut off in mid-record, after an abandoned OPEN that is answered late, under global bulk_read fragmentation policies, with a zero-length WRTE inside the reply, and beside a second live stream of the same connection (all wire orders); oracle: return value == model filesystem, '
         'stream closed, all device packets consumed; non-trivial = at least one entry / any stat; distinct = distinct (listing or triple, cut set, twin)')
 ASSUMPTIONS = ['adbsim sync service follows SYNC.TXT', 'field values come from a 13-value boundary alphabet, names from a 5-name pool']
 
@@ -36,6 +36,8 @@ def run_list(params, ch):
         cuts = oracle.choose_cuts(ch, blob_len, params['kmax'])
         cut = {'at': cuts}
     cfg = {'fs': {'dirs': {b'/d': ents}}, 'cut': cut, 'okay_order': params.get('okay')}
+    if params.get('empty_at') is not None:
+        cfg['empty_wrte_at'] = params['empty_at']
     if params.get('policy'):
         cfg['frag_policy'] = params['policy']
     s = Session(ch, cfg, twin=params['twin'])
@@ -68,6 +70,8 @@ def run_stat(params, ch):
     m, z, t = params['triple']
     cuts = oracle.choose_cuts(ch, 16, params['kmax'])
     cfg = {'fs': {'stats': {b'/s': (m, z, t)}}, 'cut': {'at': cuts}, 'okay_order': params.get('okay')}
+    if params.get('empty_at') is not None:
+        cfg['empty_wrte_at'] = params['empty_at']
     if params.get('policy'):
         cfg['frag_policy'] = params['policy']
     s = Session(ch, cfg, twin=params['twin'])
@@ -202,4 +206,8 @@ def parts(tier):
           for f in ('small', 'mirror') for n in (1, 3) for w in (11, 4096)]
     out.append(Part('beside-a-live-stream', sc, run_beside, {'dev-order': None}, what='list/stat while a suspended streaming_shell of the same connection has packets in flight: every device wire order',
                     bound='%d cases x all wire orders' % len(sc)))
+    sc = [{'pool': 'short', 'n': n, 'idx': i, 'twin': t, 'kmax': 1, 'empty_at': e} for n in (0, 1, 2) for i in (0, 5) for t in twins for e in (0, 1, 2)]
+    out.append(Part('list-with-empty-wrte', sc, run_list, {'*': None}, what='a zero-length WRTE in front of piece 0/1/2 of the listing reply, every single cut', bound='%d listings x every single cut' % len(sc)))
+    sc = [{'triple': (2**32 - 1, 2**31, 1), 'twin': t, 'kmax': 1, 'empty_at': e} for t in twins for e in (0, 1, 2)]
+    out.append(Part('stat-with-empty-wrte', sc, run_stat, {'*': None}, what='a zero-length WRTE in front of piece 0/1/2 of the stat reply, every single cut', bound='%d cases x every single cut' % len(sc), min_outcomes=1))
     return out
